@@ -731,7 +731,7 @@ def part_from_matchfile(
         ts_beat_type = tsg.denominator
         # check if time signature is in a known measure (from notes)
         if ts_bar in bar_times.keys():
-            bar_start_divs = int(divs * (bar_times[ts_bar] - offset))  # in quarters
+            bar_start_divs = int(round(divs * (bar_times[ts_bar] - offset)))
             bar_start_divs = max(0, bar_start_divs)
         else:
             bar_start_divs = 0
@@ -739,7 +739,7 @@ def part_from_matchfile(
     # add key signatures
     for ks_beat_time, ks_bar, keys in mf.key_signatures:
         if ks_bar in bar_times.keys():
-            bar_start_divs = int(divs * (bar_times[ks_bar] - offset))  # in quarters
+            bar_start_divs = int(round(divs * (bar_times[ks_bar] - offset)))
             bar_start_divs = max(0, bar_start_divs)
         else:
             bar_start_divs = 0
